@@ -281,6 +281,174 @@ theorem log_seq_in_order (S : ValidatorSpec validate .logAndContinue true op) (r
 
 end runs
 
+/-! ## 2b. The collector object: entry ids at run level, a pre-populated / reused / poisoned collector
+
+`c0` is the caller's collector as the run finds it — ANY earlier content (the user put entries there, an earlier
+run with the same `Arc` did, an earlier validator of the same block did) and ANY poison flag. `coll` is any order
+in which the mutex-protected pushes of the partitions land. -/
+
+/-- **the collector after a log-mode run, with the entry ids** (unkeyed operator). For every earlier state `c0`,
+    every partitioning `ps` and every interleaving `coll`: the collector holds what it held before, unchanged and
+    in front, followed by `coll`; `coll` interleaves the per-partition entry lists `logEntries "record_" validate p`
+    — one entry per invalid record of `p`, in order, with id `record_<index inside p>` and that record's errors —
+    so as a multiset it is exactly their union (ids are partition-local, hence not unique: nothing may merge,
+    replace or drop entries by id); the poison flag plays no role and is left as it was. -/
+theorem log_run_entries_exact (validate : α → VResult ε) (c0 : Collector ε) (ps : List (List α))
+    (coll : List (RecordError ε))
+    (h : Interleave ((ps.map (validateOp validate .logAndContinue true)).map (·.pushes)) coll) :
+    (c0.absorb coll).entries = c0.entries ++ coll
+    ∧ (c0.absorb coll).poisoned = c0.poisoned
+    ∧ Interleave (ps.map (logEntries "record_" validate)) coll
+    ∧ coll.Perm (ps.flatMap (logEntries "record_" validate)) := by
+  have hI : Interleave (ps.map (logEntries "record_" validate)) coll := by
+    have e : (ps.map (validateOp validate .logAndContinue true)).map (·.pushes)
+        = ps.map (logEntries "record_" validate) := by
+      rw [List.map_map]
+      apply List.map_congr_left
+      intro p _
+      simp only [Function.comp_apply, log_entries_exact, logEntries]
+    rwa [e] at h
+  refine ⟨c0.absorb_entries coll, c0.absorb_poisoned coll, hI, ?_⟩
+  simpa [List.flatMap_def] using Interleave.perm hI
+
+/-- the same for the keyed operator: ids are `pair_<index inside the partition>`, the verdict is the value's -/
+theorem log_run_entries_exact_values (validate : α → VResult ε) (c0 : Collector ε) (ps : List (List (κ × α)))
+    (coll : List (RecordError ε))
+    (h : Interleave ((ps.map (validateValuesOp validate .logAndContinue true)).map (·.pushes)) coll) :
+    (c0.absorb coll).entries = c0.entries ++ coll
+    ∧ (c0.absorb coll).poisoned = c0.poisoned
+    ∧ Interleave (ps.map (logEntries "pair_" (fun kv : κ × α => validate kv.2))) coll
+    ∧ coll.Perm (ps.flatMap (logEntries "pair_" (fun kv : κ × α => validate kv.2))) := by
+  have hI : Interleave (ps.map (logEntries "pair_" (fun kv : κ × α => validate kv.2))) coll := by
+    have e : (ps.map (validateValuesOp validate .logAndContinue true)).map (·.pushes)
+        = ps.map (logEntries "pair_" (fun kv : κ × α => validate kv.2)) := by
+      rw [List.map_map]
+      apply List.map_congr_left
+      intro p _
+      simp only [Function.comp_apply, log_entries_exact_values, logEntries]
+    rwa [e] at h
+  refine ⟨c0.absorb_entries coll, c0.absorb_poisoned coll, hI, ?_⟩
+  simpa [List.flatMap_def] using Interleave.perm hI
+
+/-- sequentially there is one partition and one order: the collector ends as `earlier content ++ one entry per
+    invalid record in input order`, the ids being `record_<index in the whole input>` -/
+theorem log_seq_entries_exact (validate : α → VResult ε) (c0 : Collector ε) (rows : List α)
+    (coll : List (RecordError ε))
+    (h : Interleave (([rows].map (validateOp validate .logAndContinue true)).map (·.pushes)) coll) :
+    (c0.absorb coll).entries = c0.entries ++ logEntries "record_" validate rows
+    ∧ (runSeq (validateOp validate .logAndContinue true) rows).collector = logEntries "record_" validate rows := by
+  have h1 := (log_run_entries_exact validate c0 [rows] coll h).2.2.1
+  have h2 : coll = logEntries "record_" validate rows := Interleave.singleton (by simpa using h1)
+  refine ⟨by rw [Collector.absorb_entries, h2], ?_⟩
+  simp [runSeq, runParts, log_entries_exact, logEntries]
+
+theorem log_seq_entries_exact_values (validate : α → VResult ε) (c0 : Collector ε) (rows : List (κ × α))
+    (coll : List (RecordError ε))
+    (h : Interleave (([rows].map (validateValuesOp validate .logAndContinue true)).map (·.pushes)) coll) :
+    (c0.absorb coll).entries = c0.entries ++ logEntries "pair_" (fun kv : κ × α => validate kv.2) rows := by
+  have h1 := (log_run_entries_exact_values validate c0 [rows] coll h).2.2.1
+  have h2 : coll = logEntries "pair_" (fun kv : κ × α => validate kv.2) rows :=
+    Interleave.singleton (by simpa using h1)
+  rw [Collector.absorb_entries, h2]
+
+/-- the per-partition entry lists carry exactly the invalid records' error lists (ties the id-bearing statement
+    to `log_accounts`) -/
+theorem logEntries_payload (pfx : String) (validate : α → VResult ε) (xs : List α) :
+    (logEntries pfx validate xs).map (·.errors)
+      = (xs.filter (fun x => !isValid validate x)).map (fun x => (validate x).getD []) := by
+  rw [logEntries_errors, filterMap_validate_eq]
+
+/-- skip mode, fail-fast mode, or no collector handed to the builder: the run leaves the caller's collector
+    exactly as it was (for any operator meeting the contract, any partitioning, any interleaving) -/
+theorem collector_untouched_otherwise {validate : α → VResult ε} {mode : Mode} {c : Bool}
+    {op : List α → Outcome α ε} (S : ValidatorSpec validate mode c op)
+    (hm : ¬ (mode = .logAndContinue ∧ c = true)) (c0 : Collector ε) (ps : List (List α))
+    (coll : List (RecordError ε)) (h : Interleave ((ps.map op).map (·.pushes)) coll) :
+    c0.absorb coll = c0 := by
+  rw [nothing_logged_otherwise S hm ps coll h]; rfl
+
+/-- **one collector used by two runs** (or pre-populated by the first and used by the second): after the second
+    run it holds the earlier content, then the first run's entries, then the second run's — nothing of the first
+    run is lost, merged or reordered, although both runs push the same ids `record_0, record_1, …` -/
+theorem collector_reused (c0 : Collector ε) (coll1 coll2 : List (RecordError ε)) :
+    ((c0.absorb coll1).absorb coll2).entries = c0.entries ++ coll1 ++ coll2
+    ∧ ((c0.absorb coll1).absorb coll2).poisoned = c0.poisoned := by
+  simp [Collector.absorb_entries, Collector.absorb_poisoned]
+
+/-! ### poisoned collector: the code before the `fix:` commit -/
+
+/-- before the fix a **log-mode run on a poisoned collector panicked** as soon as it met an invalid record —
+    the negation of "in log mode the run always completes" (`skip_log_never_fail`), on every such input -/
+theorem legacy_poisoned_log_fails (validate : α → VResult ε) (pre : List α) (x : α) (post : List α)
+    (es : List ε) (hpre : ∀ y ∈ pre, validate y = none) (hx : validate x = some es) :
+    (Legacy.validateOp validate .logAndContinue true true (pre ++ x :: post)).panic = some (pre.length, es) := by
+  unfold Legacy.validateOp
+  rw [legacy_validateLoop_poisoned_first validate pre x post es hpre hx]
+  simp
+
+/-- what the old code did satisfy: with a healthy mutex, and whenever it does not log (skip, fail-fast, no
+    collector), it is the current operator -/
+theorem legacy_poison_partial (validate : α → VResult ε) (mode : Mode) (c p : Bool)
+    (h : p = false ∨ ¬ (mode = .logAndContinue ∧ c = true)) :
+    Legacy.validateOp validate mode c p = validateOp validate mode c := by
+  funext xs
+  unfold Legacy.validateOp validateOp
+  rcases h with rfl | h
+  · exact legacy_validateLoop_healthy validate mode c xs 0 [] []
+  · exact legacy_validateLoop_not_logging validate h p xs 0 [] []
+
+/-! ## 2c. A validator inside a fused block -/
+
+/-- a block is executed step by step: the steps after a point see exactly what the steps before it produced -/
+theorem block_append (a b : List (BlockOp α ε)) (st : Outcome α ε) :
+    applyBlock (a ++ b) st = applyBlock b (applyBlock a st) := applyBlock_append a b st
+
+/-- a validator in the middle of a block receives the partition as the earlier steps left it (`mid`), and — if
+    it returns — hands exactly the records of `mid` that validate, in order, to the later steps; what it pushes is
+    appended to what earlier validators of the block pushed (they share the collector) -/
+theorem block_validator_in_place {validate : α → VResult ε} {mode : Mode} {c : Bool}
+    {op : List α → Outcome α ε} (S : ValidatorSpec validate mode c op)
+    (before after : List (BlockOp α ε)) (part mid : List α) (pushed : List (RecordError ε))
+    (hb : applyBlock before ⟨part, [], none⟩ = ⟨mid, pushed, none⟩) (hok : (op mid).panic = none) :
+    blockOp (before ++ .validator op :: after) part
+      = applyBlock after ⟨mid.filter (isValid validate), pushed ++ (op mid).pushes, none⟩ := by
+  unfold blockOp
+  rw [applyBlock_append, hb]
+  simp [applyBlock, hok, S.valid_eq mid hok]
+
+/-- … and if it panics (fail-fast on an invalid record of `mid`) the partition ends there -/
+theorem block_validator_panics (op : List α → Outcome α ε)
+    (before after : List (BlockOp α ε)) (part mid : List α) (pushed : List (RecordError ε))
+    (hb : applyBlock before ⟨part, [], none⟩ = ⟨mid, pushed, none⟩) (hp : (op mid).panic ≠ none) :
+    (blockOp (before ++ .validator op :: after) part).panic = (op mid).panic := by
+  unfold blockOp
+  rw [applyBlock_append, hb]
+  have : (op mid).panic.isSome = true := by
+    cases h : (op mid).panic with
+    | none => exact absurd h hp
+    | some _ => rfl
+  simp only [applyBlock, Option.isSome_none, Bool.false_eq_true, ↓reduceIte]
+  rw [applyBlock_of_panicked _ _ (by exact this)]
+
+/-- a block whose validators never panic (skip / log mode) never panics -/
+theorem block_skip_log_completes (ops : List (BlockOp α ε))
+    (h : ∀ o ∈ ops, ∀ op, o = BlockOp.validator op → ∀ xs, (op xs).panic = none) (part : List α) :
+    (blockOp ops part).panic = none := by
+  unfold blockOp
+  generalize hst : (⟨part, [], none⟩ : Outcome α ε) = st
+  have hp : st.panic = none := by rw [← hst]
+  clear hst
+  induction ops generalizing st with
+  | nil => exact hp
+  | cons o ops ih =>
+    have ht : ∀ o' ∈ ops, ∀ op, o' = BlockOp.validator op → ∀ xs, (op xs).panic = none :=
+      fun o' ho' => h o' (by simp [ho'])
+    simp only [applyBlock, hp, Option.isSome_none, Bool.false_eq_true, ↓reduceIte]
+    cases o with
+    | map f => exact ih ht _ rfl
+    | filter p => exact ih ht _ rfl
+    | validator op => exact ih ht _ (h _ (by simp) op rfl _)
+
 /-- the collector content `runParts` reports (partition by partition, which is what a sequential run produces
     and what the driver prints after sorting) is one of the interleavings the theorems above quantify over -/
 theorem runParts_collector_is_interleaving (op : List α → Outcome α ε) (ps : List (List α)) :
@@ -411,6 +579,35 @@ example : Interleave
   show Interleave ([[(⟨some "record_1", [1]⟩ : RecordError Nat)]] ++ [⟨some "record_1", [2, 3]⟩] :: []) _
   exact Interleave.take (a := [[_]]) (b := [])
     (Interleave.take (a := []) (b := [[]]) (.done (by simp)))
+
+/-- a pre-populated collector that already holds `record_1`: the run's own `record_1` entries come after it, all
+    three entries with that id are kept -/
+example :
+    let rows : List (Nat × VResult Nat) := [(0, none), (1, some [1]), (2, none), (3, some [2, 3])]
+    let c0 : Collector Nat := ⟨[⟨some "record_1", [9]⟩], true⟩
+    let r := runPar (validateOp demoValidate .logAndContinue true) 2 rows
+    (c0.absorb r.collector).entries
+      = [⟨some "record_1", [9]⟩, ⟨some "record_1", [1]⟩, ⟨some "record_1", [2, 3]⟩] := by decide
+
+/-- the old code on a poisoned collector: log mode panics (negation witness of "log mode always completes") -/
+example : (Legacy.validateOp demoValidate .logAndContinue true true [(0, none), (1, some [1])]).panic
+    = some (1, [1]) := by decide
+/-- … the current code logs -/
+example : (validateOp demoValidate .logAndContinue true [(0, none), (1, some [1])]).panic = none
+    ∧ (validateOp demoValidate .logAndContinue true [(0, none), (1, some [1])]).pushes = [⟨some "record_1", [1]⟩] := by
+  decide
+
+/-- two validators of one block share the collector; a step between them invalidates record 0: the second
+    validator starts counting at 0 again, so `record_0` is pushed by it while `record_1` came from the first -/
+example :
+    let v := validateOp demoValidate .logAndContinue true
+    let brk : Nat × VResult Nat → Nat × VResult Nat := fun r => if r.1 = 0 then (0, some [7]) else r
+    (blockOp [.validator v, .map brk, .validator v] [(0, none), (1, some [1]), (2, none)]).pushes
+      = [⟨some "record_1", [1]⟩, ⟨some "record_0", [7]⟩] := by decide
+
+/-- the hypotheses of `block_validator_in_place` are satisfiable -/
+example : applyBlock [BlockOp.map (fun r : Nat × VResult Nat => (r.1 + 1, r.2))] ⟨[(0, none)], [], none⟩
+    = (⟨[(1, none)], [], none⟩ : Outcome (Nat × VResult Nat) Nat) := by rfl
 
 /-- fail-fast: first invalid record wins, sequentially -/
 example : (validateOp demoValidate .failFast false [(0, none), (1, some []), (2, some [7])]).panic
